@@ -8,8 +8,8 @@ CLAIM = ('Proved in Coq for the model, for every criterion, buffer capacity and 
          'whose (second, restart position) keys increase in closing order) the files read in writing order hold exactly the '
          "written bytes, once, in order; for Timestamps naming the oracle's reader (files ordered by parsed infix) is proved to "
          'read them in exactly that order (C01_reader_timestamps); the stream oracle is proved sound (C01_oracle_sound). '
-         'Hypotheses shown necessary by counterexamples evaluated in Coq: neither the fixed name part nor the suffix contains '
-         '".restart-", the suffix does not end in .gz. For TimestampsDirect and custom formats the statement is partial: decided '
+         'Hypotheses (shown necessary by counterexamples evaluated in Coq): the suffix does not start with "restart-", neither it nor '
+         'the fixed name part contains a full "<time stamp>.restart-", the suffix does not end in .gz. For TimestampsDirect and custom formats the statement is partial: decided '
          "on every explored history by the correspondence check plus the oracle applied to the implementation's directory. ")
 THEOREMS = ["C01_stream_numbers", "C01_stream_numbersdirect", "C01_stream_timestamps", "C01_reader_timestamps", "C01_oracle_sound"]
 TRUSTED = ["modelled, not verified: std BufWriter/File semantics, rename/open/truncate of the OS (Fs/Fs.v), chrono's formatting of timestamps (Time/)"]
